@@ -25,6 +25,24 @@ theorem never_beyond_len (back : Bytes) (len : Nat) (chunks : List Bytes) :
     (encodeObjectM back len chunks).2.2.drop len = back.drop len :=
   encodeObject_tail_untouched back len chunks
 
+/-- "repeatable" at the level of the caller's array: encoding the same value again into the array the
+    first call left behind reports the same n and leaves the array exactly as it was -/
+theorem encode_again_leaves_array (back : Bytes) (len : Nat) (chunks : List Bytes)
+    (hfit : chunks.flatten.length ≤ len) :
+    encodeObjectM (encodeObjectM back len chunks).2.2 len chunks = encodeObjectM back len chunks := by
+  rw [encodeObject_fits back len chunks hfit, encodeObject_fits _ len chunks hfit]
+  simp only [List.drop_left]
+
+/-- the result depends on the bytes produced, not on the pieces in which the encoder appends them
+    (fast paths and generic paths cut the same message differently) -/
+theorem chunking_immaterial (back : Bytes) (len : Nat) (c₁ c₂ : List Bytes)
+    (hsame : c₁.flatten = c₂.flatten) (hfit : c₁.flatten.length ≤ len) :
+    encodeObjectM back len c₁ = encodeObjectM back len c₂ := by
+  rw [encodeObject_fits back len c₁ hfit, encodeObject_fits back len c₂ (hsame ▸ hfit), hsame]
+
+example : encodeObjectM [9, 9, 9, 9, 9] 4 [[1], [2, 3]] = (3, true, [1, 2, 3, 9, 9])
+    ∧ encodeObjectM [1, 2, 3, 9, 9] 4 [[1, 2], [3]] = (3, true, [1, 2, 3, 9, 9]) := by decide
+
 theorem code_follows_buffer_model : Generated.facts.bufferContract = true := Instances.facts_bufferContract
 /-- … and those that speak of `appendM` / `sizeM` about the hand-written model of `appendStruct` /
     `appendAny` / the size walk / the entry points (Encode.lean), written from exactly this control
